@@ -137,14 +137,14 @@ func watchdog(limit time.Duration) {
 		if stalled > 60*time.Second {
 			// One goroutine of the bubble has been running, without ever
 			// blocking or reaching a scheduling point, in the same go-libipni
-			// function (no harness code above it on its stack) in each of
-			// ten samples taken over two more seconds: a loop that does not
+			// code (no harness code above it on its stack) in each of ten
+			// samples taken over two more seconds: a loop that does not
 			// end. Nothing in these scenarios computes for a minute.
 			if fn, ok := spinning(gs); ok {
 				res := *c
 				res.Type = "hang"
 				res.OK = false
-				res.Viol = []simkit.Violation{{Oracle: "hang", Msg: "a goroutine has been running in " + fn + " for a minute without blocking or reaching a scheduling point: a loop that does not end", Step: heartbeat.Load()}}
+				res.Viol = []simkit.Violation{{Oracle: "hang", Msg: "a goroutine that entered " + fn + " has been running for a minute without blocking or reaching a scheduling point: a loop that does not end", Step: heartbeat.Load()}}
 				if r := curRun.Load(); r != nil {
 					res.Tape = r.Tape.Recorded()
 					res.Trace = r.CanonicalLog()
@@ -164,42 +164,81 @@ func watchdog(limit time.Duration) {
 	}
 }
 
-// spinner names the bubble goroutine that is running inside go-libipni code
-// with no harness frame above that code, and the innermost go-libipni
-// function on its stack.
-func spinner(gs []simkit.Goroutine) (id, fn string) {
-	for _, g := range gs {
-		// (the runtime does not always name the bubble in the header of a
-		// goroutine that is not waiting)
-		if g.State != "running" && g.State != "runnable" {
-			continue
+// spinning looks for one goroutine that is running (never blocked) with
+// go-libipni frames on its stack in each of eleven samples over two seconds,
+// and that in at least three of them has no harness code above the library's
+// (a sample may find it inside a callback of the harness that the library's
+// loop calls - a block hook -, which returns at once). It returns the
+// go-libipni functions it was found in.
+func spinning(first []simkit.Goroutine) (string, bool) {
+	active := func(gs []simkit.Goroutine) map[string]simkit.Goroutine {
+		out := map[string]simkit.Goroutine{}
+		for _, g := range gs {
+			// (the runtime does not always name the bubble in the header of
+			// a goroutine that is not waiting)
+			if (g.State == "running" || g.State == "runnable") && g.LibraryFrame() {
+				out[g.ID] = g
+			}
 		}
+		return out
+	}
+	innermost := func(g simkit.Goroutine) bool {
 		lib := strings.Index(g.Stack, "github.com/ipni/go-libipni/")
 		harness := strings.Index(g.Stack, "verif/sim/")
-		if lib < 0 || harness >= 0 && harness < lib {
-			continue
-		}
-		if id != "" {
-			return "", "" // more than one: not this pattern
-		}
-		id, fn = g.ID, g.TopFunc()
+		return lib >= 0 && (harness < 0 || lib < harness)
 	}
-	return id, fn
-}
-
-func spinning(first []simkit.Goroutine) (string, bool) {
-	id, fn := spinner(first)
-	if id == "" {
+	cands := active(first)
+	inner := map[string]int{}
+	fns := map[string][]string{}
+	for id, g := range cands {
+		if innermost(g) {
+			inner[id]++
+		}
+		fns[id] = append(fns[id], outerLibFunc(g))
+	}
+	for i := 0; i < 10 && len(cands) > 0; i++ {
+		time.Sleep(200 * time.Millisecond)
+		now := active(simkit.DumpGoroutines())
+		for id := range cands {
+			g, ok := now[id]
+			if !ok {
+				delete(cands, id)
+				continue
+			}
+			if innermost(g) {
+				inner[id]++
+			}
+			fns[id] = append(fns[id], outerLibFunc(g))
+		}
+	}
+	if len(cands) != 1 {
 		return "", false
 	}
-	for i := 0; i < 10; i++ {
-		time.Sleep(200 * time.Millisecond)
-		id2, fn2 := spinner(simkit.DumpGoroutines())
-		if id2 != id || fn2 != fn {
-			return "", false
+	for id := range cands {
+		if inner[id] >= 3 {
+			return strings.Join(dedup(fns[id]), ", "), true
 		}
 	}
-	return fn, true
+	return "", false
+}
+
+// outerLibFunc names the outermost go-libipni function on the stack: the
+// entry point the goroutine has not come back from.
+func outerLibFunc(g simkit.Goroutine) string {
+	out := ""
+	for _, l := range strings.Split(g.Stack, "\n") {
+		if strings.HasPrefix(l, "\t") || strings.HasPrefix(l, "created by") {
+			continue
+		}
+		if i := strings.Index(l, "github.com/ipni/go-libipni/"); i >= 0 {
+			l = l[i+len("github.com/ipni/go-libipni/"):]
+			if j := strings.LastIndex(l, "("); j > 0 {
+				l = l[:j]
+			}
+			out = l
+		}
+	}
+	return out
 }
 
 func dedup(in []string) []string {
